@@ -181,4 +181,94 @@ theorem usum_eq_usumSpec (cs : Comps W) (h : ∀ p ∈ cs, UnkClean p.2) (c : Li
   intro p hp
   rw [rawScore_eq_score p.2 (h p hp)]
 
+/-! ### pass-1 records + pass-2 charging = back-off recursion -/
+
+theorem merge_from_le (m : LM W) : ∀ (c : List W) (x : W), (m.merge c x).2 ≤ c.length
+  | [], x => by
+    unfold LM.merge
+    cases m.find [] x <;> simp
+  | y :: c, x => by
+    unfold LM.merge
+    cases m.find (y :: c) x with
+    | some e => simp
+    | none =>
+      have := merge_from_le m c x
+      simp only [List.length_cons]
+      omega
+
+/-- the probability found by `HandleSuffix` plus the back-offs charged by `SameContext` according
+to `from` is the back-off recursion -/
+theorem merge_charge_eq_rawScore (m : LM W) : ∀ (c : List W) (x : W),
+    (m.merge c x).1 + m.charge c (m.merge c x).2 = m.rawScore c x
+  | [], x => by
+    unfold LM.merge LM.rawScore LM.charge
+    cases m.find [] x <;> simp
+  | y :: c, x => by
+    have ih := merge_charge_eq_rawScore m c x
+    have hle := merge_from_le m c x
+    unfold LM.merge LM.rawScore
+    cases hf : m.find (y :: c) x with
+    | some e => simp [LM.charge]
+    | none =>
+      simp only
+      rw [LM.charge, if_pos (by simp only [List.length_cons]; omega), ← ih]
+      ring
+
+theorem toolProb_eq_usum (cs : Comps W) (c : List W) (x : W) : toolProb cs c x = usum cs c x := by
+  unfold toolProb usum
+  congr 1
+  apply List.map_congr_left
+  intro p _
+  rw [merge_charge_eq_rawScore]
+
+/-- every n-gram's suffix is an n-gram of the same component -/
+def SuffixClosed (m : LM W) : Prop :=
+  ∀ e ∈ m.entries, e.ctx ≠ [] → (m.find e.ctx.tail e.word).isSome = true
+
+theorem charge_of_ge (m : LM W) : ∀ (c : List W) (n : Nat), c.length ≤ n → m.charge c n = 0
+  | [], _, _ => rfl
+  | y :: c, n, h => by
+    rw [LM.charge, if_neg (by omega)]
+
+/-- `LowerProb()` is the weighted back-off score in the shorter context — this needs suffix
+closure of every component: `SameContext` decides the charges of the lower probability by the
+`from` of the *full* n-gram. -/
+theorem toolLower_eq_usum (cs : Comps W) (hs : ∀ p ∈ cs, SuffixClosed p.2) (y : W) (c : List W) (x : W) :
+    toolLower cs y c x = usum cs c x := by
+  unfold toolLower usum
+  congr 1
+  apply List.map_congr_left
+  intro p hp
+  congr 1
+  rw [← merge_charge_eq_rawScore p.2 c x]
+  congr 1
+  cases hf : p.2.find (y :: c) x with
+  | none =>
+    have : p.2.merge (y :: c) x = p.2.merge c x := by rw [LM.merge, hf]
+    rw [this]
+  | some e =>
+    obtain ⟨_, he, h1, h2⟩ := mem_ext_of_find p.2 (y :: c) x e hf
+    have hsome := hs p hp e he (by rw [h1]; simp)
+    rw [h1, h2, List.tail_cons] at hsome
+    have h1' : (p.2.merge (y :: c) x).2 = (y :: c).length := by rw [LM.merge, hf]
+    -- the component has `c ++ [x]` as well: its own `from` is `c.length`, nothing is charged
+    have h2' : (p.2.merge c x).2 = c.length := by
+      cases c with
+      | nil => unfold LM.merge; cases p.2.find [] x <;> rfl
+      | cons z c' =>
+        cases hf' : p.2.find (z :: c') x with
+        | none => rw [hf'] at hsome; exact Bool.noConfusion hsome
+        | some e' => rw [LM.merge, hf']
+    rw [h1', h2', charge_of_ge _ _ _ (by simp), charge_of_ge _ _ _ (le_refl _)]
+
+theorem zincTool_eq_zinc {F : Type} [Field F] (E : ℚ → F) (cs : Comps W) (V : List W)
+    (hs : ∀ p ∈ cs, SuffixClosed p.2) : ∀ c, ZincTool E cs V c = Zinc E cs V c
+  | [] => by
+    unfold ZincTool Zinc
+    simp only [toolProb_eq_usum]
+  | y :: c => by
+    unfold ZincTool Zinc
+    rw [zincTool_eq_zinc E cs V hs c]
+    simp only [toolProb_eq_usum, toolLower_eq_usum cs hs]
+
 end KV.Interp
